@@ -28,7 +28,7 @@ class Obj:
         self.v = v
 
 
-BENIGN = [1, "text", [1, 2, 3], {"a": [1, 2]}, (1, (2, 3)), None, b"bytes", {"k": {"n": 1}}]
+BENIGN = [1, "text", [1, 2, 3], {"a": [1, 2]}, (1, (2, 3)), None, b"bytes", {"k": {"n": 1}}, True, False, 2 ** 40, -(2 ** 70)]
 FLAGGED = [b"cos\nsystem\n(Vid\ntR.", b"cbuiltins\neval\n(V1\ntR.", b"cfoo\nbar\n(tR.", b"cbuiltins\ngetattr\n(cbuiltins\ndict\nVget\ntR."]
 
 
